@@ -9,6 +9,8 @@ for f in files:
         ln=ln.rstrip('\n')
         m=re.match(r'//@ (func|iface) (.+)$',ln)
         if m: cur=m.group(2); continue
+        m=re.match(r'//@\s+(nobody)\s*$',ln)
+        if m: rows.append((f.replace('/contracts_verif.go',''),cur,'body not verified (nobody)','contract used at call sites only; the function works on dependency data structures')); continue
         m=re.match(r'//@\s+(ensures-assumed|assumes|trusted)\s+(.*)$',ln)
         if m: rows.append((f.replace('/contracts_verif.go',''),cur,m.group(1),m.group(2))); continue
         m=re.match(r'//@\s+at (call|recv) (\S+?):\s*(after )?assume (.*)$',ln)
@@ -21,7 +23,7 @@ for r in rows:
 n_ext=0
 for f in glob.glob('/verif/extern/*.spec'):
     n_ext+=sum(1 for l in open(f) if l.startswith('//@ func ') or l.startswith('//@ iface '))
-txt="\n".join(out)+f"\n\nPlus {n_ext} assumed contracts on dependency functions in `/verif/extern/*.spec` (all on code outside /repo; each check lists the ones it used), the machine-arithmetic notes (counters stepped by constants assumed not to wrap) and the aliasing convention of §3.2, all repeated in every evidence file. No function body in /repo is `trusted`.\n"
+txt="\n".join(out)+f"\n\nPlus {n_ext} assumed contracts on dependency functions in `/verif/extern/*.spec` (all on code outside /repo; each check lists the ones it used), the machine-arithmetic notes (counters stepped by constants assumed not to wrap) and the aliasing convention of §3.2, all repeated in every evidence file. No function body in /repo is `trusted`; the three `nobody` rows above are frame-only contracts (`pure`, no postcondition) on selector helpers whose bodies work on ipld-prime nodes and are not verified - they are exercised by the bounded stand-in `c01-selectors`.\n"
 p='/verif/DESIGN.md'
 s=open(p).read()
 a='<!-- ASSUMPTIONS-BEGIN -->'; b='<!-- ASSUMPTIONS-END -->'
